@@ -6,7 +6,7 @@
    RSpec  every sequence of Depth renders of components on I/Os with different capabilities; RenderPure.       *)
 EXTENDS Styles, Json
 
-CONSTANTS Depth, UseAligns
+CONSTANTS Depth, UseAligns, RComps, RIOs
 VARIABLE hist
 hvars == <<vars, hist>>
 
@@ -41,14 +41,19 @@ SNext == /\ Len(hist) < Depth
                                   eff |-> AllEffective'])
 SSpec == HInit /\ [][SNext]_hvars
 
-IOs == {[utf8 |-> TRUE, ansi |-> FALSE, verb |-> "normal", width |-> 60], [utf8 |-> FALSE, ansi |-> FALSE, verb |-> "normal", width |-> 60],
-        [utf8 |-> TRUE, ansi |-> FALSE, verb |-> "debug", width |-> 60], [utf8 |-> FALSE, ansi |-> FALSE, verb |-> "debug", width |-> 60],
-        [utf8 |-> TRUE, ansi |-> TRUE, verb |-> "debug", width |-> 60], [utf8 |-> TRUE, ansi |-> TRUE, verb |-> "verbose", width |-> 60],
-        [utf8 |-> TRUE, ansi |-> FALSE, verb |-> "normal", width |-> 40], [utf8 |-> TRUE, ansi |-> TRUE, verb |-> "debug", width |-> 40]}
-Insts(c) == IF c \in {"table", "trace"} THEN {1, 2} ELSE {1}
+IOs == {[utf8 |-> TRUE, ansi |-> FALSE, verb |-> "normal", width |-> 60, ind |-> 0], [utf8 |-> FALSE, ansi |-> FALSE, verb |-> "normal", width |-> 60, ind |-> 0],
+        [utf8 |-> TRUE, ansi |-> FALSE, verb |-> "debug", width |-> 60, ind |-> 0], [utf8 |-> FALSE, ansi |-> FALSE, verb |-> "debug", width |-> 60, ind |-> 0],
+        [utf8 |-> TRUE, ansi |-> TRUE, verb |-> "debug", width |-> 60, ind |-> 0], [utf8 |-> TRUE, ansi |-> TRUE, verb |-> "verbose", width |-> 60, ind |-> 0],
+        [utf8 |-> TRUE, ansi |-> FALSE, verb |-> "normal", width |-> 40, ind |-> 0], [utf8 |-> TRUE, ansi |-> TRUE, verb |-> "debug", width |-> 40, ind |-> 0]}
+IOsAll == IOs \cup {[utf8 |-> TRUE, ansi |-> FALSE, verb |-> "normal", width |-> 60, ind |-> 4]}
+\* repeated renders of the label alignment at changing indentations: (4,4), (4,0), (2,6,0), ...
+IndIOs == {[utf8 |-> TRUE, ansi |-> FALSE, verb |-> "normal", width |-> 60, ind |-> k] : k \in {0, 2, 6}}
+          \cup {[utf8 |-> TRUE, ansi |-> TRUE, verb |-> "normal", width |-> 40, ind |-> 4]}
+AlignComps == {"labels", "block"}
+Insts(c) == IF c \in {"table", "trace", "labels"} THEN {1, 2} ELSE {1}
 
 RNext == /\ Len(hist) < Depth
-         /\ \E c \in Components : \E inst \in Insts(c) : \E io \in IOs : Render(c, inst, io)
+         /\ \E c \in RComps : \E inst \in Insts(c) : \E io \in RIOs : Render(c, inst, io)
          /\ hist' = Append(hist, [comp |-> last'.comp, inst |-> last'.inst, io |-> last'.io, shown |-> last'.shown])
 RSpec == HInit /\ [][RNext]_hvars
 
